@@ -765,6 +765,9 @@ int main(int argc, char **argv) {
           out << ",\"name\":" << q(I.getName());
         if (varOf.count(id))
           out << ",\"var\":" << q(varOf[id]);
+        if (auto *obo = dyn_cast<OverflowingBinaryOperator>(&I))
+          if (obo->hasNoSignedWrap())
+            out << ",\"nsw\":1";
         if (const DebugLoc &dl = I.getDebugLoc()) {
           out << ",\"loc\":[" << dl.getLine() << "," << dl.getCol() << "]";
           if (auto *sc = dyn_cast_or_null<DIScope>(dl.getScope()))
